@@ -8,6 +8,7 @@ import (
 	"fmt"
 	"io"
 	"net/http"
+	"runtime"
 	"strings"
 	"sync"
 	"time"
@@ -41,6 +42,7 @@ func (b *slowBody) Read(p []byte) (int, error) {
 	}
 	copy(p, b.data[b.pos:b.pos+n])
 	b.pos += n
+	runtime.Gosched() // a body that trickles in
 	if !b.first {
 		b.first = true
 		b.meet.Done()
@@ -83,7 +85,7 @@ func CheckConcurrentReads(run *report.Run, rounds int) {
 					restful.SetCompressorProvider(restful.NewSyncPoolCompessors())
 				}
 			}
-			const k = 4
+			const k, late = 4, 2 // k bodies meet after their first chunk; `late` more requests arrive right then
 			var meet sync.WaitGroup
 			meet.Add(k)
 			gone := make(chan struct{})
@@ -93,13 +95,13 @@ func CheckConcurrentReads(run *report.Run, rounds int) {
 				err       error
 				coding    string
 			}
-			out := make([]res, k)
+			out := make([]res, k+late)
 			var wg sync.WaitGroup
-			for i := 0; i < k; i++ {
+			for i := 0; i < k+late; i++ {
 				want := concEntity{A: strings.Repeat(fmt.Sprintf("payload-%d-%d-%s;", round, i, prov), 20+7*i), N: int64(9007199254740993 + i)}
 				plain, _ := json.Marshal(want)
 				var buf bytes.Buffer
-				coding := []string{"gzip", "gzip", "gzip", "deflate"}[i]
+				coding := []string{"gzip", "gzip", "gzip", "deflate", "gzip", "gzip"}[i]
 				if coding == "gzip" {
 					w := gzip.NewWriter(&buf)
 					w.Write(plain)
@@ -112,7 +114,11 @@ func CheckConcurrentReads(run *report.Run, rounds int) {
 				hr, _ := http.NewRequest("POST", "/x", nil)
 				hr.Header.Set("Content-Type", "application/json")
 				hr.Header.Set("Content-Encoding", coding)
-				hr.Body = &slowBody{data: buf.Bytes(), meet: &meet, gone: gone}
+				if i < k {
+					hr.Body = &slowBody{data: buf.Bytes(), meet: &meet, gone: gone}
+				} else {
+					hr.Body = &slowBody{data: buf.Bytes(), meet: &meet, gone: gone, first: true} // no rendezvous of its own
+				}
 				out[i].want, out[i].coding = want, coding
 				wg.Add(1)
 				go func(i int) {
@@ -122,6 +128,9 @@ func CheckConcurrentReads(run *report.Run, rounds int) {
 							out[i].err = fmt.Errorf("panic: %v", p)
 						}
 					}()
+					if i >= k {
+						<-gone // the late ones start reading when the others are in the middle of their bodies
+					}
 					out[i].err = restful.NewRequest(hr).ReadEntity(&out[i].got)
 				}(i)
 			}
@@ -133,7 +142,7 @@ func CheckConcurrentReads(run *report.Run, rounds int) {
 				if (r.err != nil || r.got != r.want) && bad < 3 {
 					bad++
 					run.AddViolation(report.Violation{Kind: "counterexample",
-						What:  fmt.Sprintf("C16: %d compressed request bodies read at the same time (provider %s): read %d (%s) did not yield the value that was sent", k, prov, i, r.coding),
+						What:  fmt.Sprintf(run.Property+": %d compressed request bodies read at the same time (provider %s): read %d (%s) did not yield the value that was sent", k, prov, i, r.coding),
 						Human: map[string]interface{}{"provider": prov, "round": round, "bodies": k, "read": i, "coding": r.coding, "bytes_per_Read": 24, "rendezvous": "after the first chunk of every body"},
 						Real:  fmt.Sprintf("err=%v a=%.60q n=%d", r.err, r.got.A, r.got.N), Model: fmt.Sprintf("err=<nil> a=%.60q n=%d", r.want.A, r.want.N)})
 				}
